@@ -267,3 +267,39 @@ def run(ctx):
                               norm(h.type), norm(h.type.values[0])))
     ctx.floor("R19.4", "exception handlers inspected", n_handlers, 15)
     ctx.ok("R19.4", "%d exception handlers in %d modules name a type or a tuple of types" % (n_handlers, len(HANDLER_MODULES)), "")
+
+    # ---------------- R19.6: a refresh from the network records its time (so the next one inside the interval is skipped)
+    ctx.rule("R19.6", "a `with CacheLock(...)` whose body fetches from the network keeps write_time on (refresh time recorded/tested)")
+    from sa.callgraph import STRONG_KINDS
+    fetchers = set()
+    for f in prog.functions.values():
+        if any(isinstance(c, ast.Call) and call_name(c) in ("make_url_request", "urlopen", "url_to_file") for c in walk_no_nested(f.node)):
+            fetchers.add(f)
+    n_fetch_sites = 0
+    for f in prog.functions.values():
+        for w in ast.walk(f.node):
+            if not isinstance(w, ast.With):
+                continue
+            for it in w.items:
+                ce = it.context_expr
+                if not (isinstance(ce, ast.Call) and prog.resolve_expr(ce.func, f.module, f.cls, f) is lock_cls):
+                    continue
+                kw = {k.arg: k.value for k in ce.keywords if k.arg}
+                wt = kw.get("write_time", ce.args[1] if len(ce.args) > 1 else None)
+                fetches = []
+                for c in (x for b in w.body for x in ast.walk(b) if isinstance(x, ast.Call)):
+                    for k, t in cg.resolve_call(c, f):
+                        if k in STRONG_KINDS and (t in fetchers or fetchers & cg.reachable([t], STRONG_KINDS)):
+                            fetches.append(c)
+                            break
+                if not fetches:
+                    continue
+                n_fetch_sites += 1
+                ctx.saw(f)
+                off = wt is not None and not (isinstance(wt, ast.Constant) and wt.value is True)
+                ctx.check(not off, "R19.6", f.qualname, ce, loc(f, ce),
+                          "`%s` fetches from the network under a lock built with write_time=%s: the refresh time is neither "
+                          "tested nor recorded, so every request inside the refresh interval fetches again and cached content "
+                          "can change within the interval" % (norm(fetches[0])[:50], norm(wt) if wt is not None else "?"),
+                          desc="network refresh in %s records its time" % f.short)
+    ctx.floor("R19.6", "lock bodies that fetch from the network", n_fetch_sites, 2)
